@@ -137,6 +137,28 @@ def _builder_shape(core):
                     okf = True
                     GROUP_KEY[0] = tuple(sorted(compared))
         if not okf:
+            # any other way of finding the group (`last_mut()` + guard, `position`, a match): which columns of the table row are
+            # compared for equality with the stored group?
+            lp = group_loops[0]
+            rowpos = {}
+            q_ = lp["pat"]
+            while H.kind(q_) == "Ref":
+                q_ = q_["pat"]
+            if H.kind(q_) == "Tuple":
+                for i_, p_ in enumerate(q_["pats"]):
+                    for bn in H.pat_binds(p_):
+                        rowpos[bn] = i_
+            compared = set()
+            for x_ in H.walk(lp["body"]):
+                if H.kind(x_) == "Binary" and x_["op"] == "Eq":
+                    for a_, b_ in ((x_["l"], x_["r"]), (x_["r"], x_["l"])):
+                        la = H.path_local(a_)
+                        if la in rowpos:
+                            compared.add(rowpos[la])
+            if compared and compared <= {0, 1} and 0 in compared:
+                okf = True
+                GROUP_KEY[0] = tuple(sorted(compared))
+        if not okf:
             why.append("groups are not keyed by (precedence, associativity) equality")
     # registrations after the loop, in program order (source position)
     all_ops = [n for n in H.walk(body) if H.kind(n) == "MethodCall" and n["name"] == "op"]
